@@ -41,3 +41,93 @@ Print Assumptions C10_value.
 Print Assumptions C10_ignored.
 Print Assumptions C10_eof_codes.
 Print Assumptions C10_known_F10_witness.
+
+(* ---- streams (Proofs/StreamEof.v): a stream whose remaining text is a proper prefix of an accepted value yields that value early (numbers) or
+   exactly ONE eofish error at the end of the input, byte_offset() at the start of the fragment, then None forever ---- *)
+From SJ Require Import Model.Stream Spec.Syntax Spec.Denote.
+From SJ Require Proofs.StreamEof.
+Theorem C10_stream : forall cf rk c v ss w p t,
+  (rk = RSlice \/ rk = RIo) ->
+  wfb c = true -> denote cf c = Some v ->
+  (limit_disabled cf = false -> (cdepth c < N.to_nat (depth (ss_st ss)))%nat) -> (depth (ss_st ss) <= 128)%N ->
+  (is_io (mkEnv rk TEof cf) && ss_failed ss = false) ->
+  rest (ss_st ss) = w ++ p -> ws_ok w = true -> p <> [] -> render c = p ++ t ->
+  (exists v' ss', stream_next (mkEnv rk TEof cf) value_item ss = (Some (IVal v'), ss')
+      /\ (v' = v \/ (rest (ss_st ss') = [] /\ ss_off ss' = (off (ss_st ss) + length w + length p)%nat)))
+  \/ (exists c' i ss', stream_next (mkEnv rk TEof cf) value_item ss = (Some (IErr c' i), ss')
+      /\ eofish c' /\ i = (off (ss_st ss) + length w + length p)%nat
+      /\ ss_off ss' = (off (ss_st ss) + length w)%nat
+      /\ forall n, Forall (fun o => fst o = None /\ snd o = (off (ss_st ss) + length w)%nat)
+                          (stream_run n (mkEnv rk TEof cf) value_item ss')).
+Proof. exact (@StreamEof.stream_truncated_render). Qed.
+Print Assumptions C10_stream.
+
+Theorem C10_stream_value : forall rk cf ss w p t v s',
+  (is_io (mkEnv rk TEof cf) && ss_failed ss = false) ->
+  rest (ss_st ss) = w ++ p -> ws_ok w = true ->
+  (match p with b :: _ => ws_byte b = false | [] => False end) -> t <> [] ->
+  value_item (mkEnv rk TEof cf) (mkSt (p ++ t) (off (ss_st ss) + length w)%nat true (depth (ss_st ss))) = Ok (v, s') ->
+  (length (rest s') <= length t)%nat ->
+  (exists v' ss', stream_next (mkEnv rk TEof cf) value_item ss = (Some (IVal v'), ss')
+      /\ (v' = v \/ (rest (ss_st ss') = [] /\ ss_off ss' = (off (ss_st ss) + length w + length p)%nat)))
+  \/ (exists c i ss', stream_next (mkEnv rk TEof cf) value_item ss = (Some (IErr c i), ss')
+      /\ eofish c /\ i = (off (ss_st ss) + length w + length p)%nat
+      /\ ss_off ss' = (off (ss_st ss) + length w)%nat
+      /\ forall n, Forall (fun o => fst o = None /\ snd o = (off (ss_st ss) + length w)%nat)
+                          (stream_run n (mkEnv rk TEof cf) value_item ss')).
+Proof. exact (@StreamEof.stream_truncated_value). Qed.
+Print Assumptions C10_stream_value.
+
+Theorem C10_stream_ignored : forall rk cf ss w p t v s',
+  (is_io (mkEnv rk TEof cf) && ss_failed ss = false) ->
+  rest (ss_st ss) = w ++ p -> ws_ok w = true ->
+  (match p with b :: _ => ws_byte b = false | [] => False end) -> t <> [] ->
+  ignored_item (mkEnv rk TEof cf) (mkSt (p ++ t) (off (ss_st ss) + length w)%nat true (depth (ss_st ss))) = Ok (v, s') ->
+  (length (rest s') <= length t)%nat ->
+  (exists v' ss', stream_next (mkEnv rk TEof cf) ignored_item ss = (Some (IVal v'), ss')
+      /\ (v' = v \/ (rest (ss_st ss') = [] /\ ss_off ss' = (off (ss_st ss) + length w + length p)%nat)))
+  \/ (exists c i ss', stream_next (mkEnv rk TEof cf) ignored_item ss = (Some (IErr c i), ss')
+      /\ eofish c /\ i = (off (ss_st ss) + length w + length p)%nat
+      /\ ss_off ss' = (off (ss_st ss) + length w)%nat
+      /\ forall n, Forall (fun o => fst o = None /\ snd o = (off (ss_st ss) + length w)%nat)
+                          (stream_run n (mkEnv rk TEof cf) ignored_item ss')).
+Proof. exact (@StreamEof.stream_truncated_ignored). Qed.
+Print Assumptions C10_stream_ignored.
+
+Theorem C10_stream_item : forall rk cf p t off pk d v s',
+  value_item (mkEnv rk TEof cf) (mkSt (p ++ t) off pk d) = Ok (v, s') ->
+  match value_item (mkEnv rk TEof cf) (mkSt p off pk d) with
+  | Ok (v2, s2) => (v2 = v /\ s' = mkSt (rest s2 ++ t) (Read.off s2) (Read.pk s2) (depth s2))
+                   \/ (rest s2 = [] /\ Read.pk s2 = false /\ Read.off s2 = (off + length p)%nat)
+  | Err c i => eofish c /\ i = (off + length p)%nat
+  | OutOfFuel | Panic => False
+  end.
+Proof. exact (@StreamEof.value_item_prefix_strong). Qed.
+Print Assumptions C10_stream_item.
+
+
+(* ---- typed targets (Proofs/TypedPrefix*.v): every type program, key type, reader kind and configuration ---- *)
+From SJ Require Import Model.Ty Model.DeTyped.
+From SJ Require Proofs.TypedPrefix Proofs.TypedPrefixTotal.
+Theorem C10_typed : forall rk cf t p tl d, tl <> [] ->
+  from_input_typed (mkEnv rk TEof cf) t (p ++ tl) = TOk d ->
+  match from_input_typed (mkEnv rk TEof cf) t p with
+  | TOk _ => True
+  | TErr c i => eofish c /\ i = length p
+  | TUnpos _ _ | TFuel | TPanic => False
+  end.
+Proof. exact (@TypedPrefixTotal.C10_typed_full). Qed.
+Print Assumptions C10_typed.
+
+Theorem C10_typed_data_error_dead : forall rk cf t p tl c i,
+  from_input_typed (mkEnv rk TEof cf) t p = TErr c i -> ~ eofish c ->
+  forall d, from_input_typed (mkEnv rk TEof cf) t (p ++ tl) <> TOk d.
+Proof. exact (@TypedPrefix.C10_typed_data_error_dead). Qed.
+Print Assumptions C10_typed_data_error_dead.
+
+Theorem C10_typed_trailing_witness :
+  from_input_typed (mkEnv RSlice TEof (mkCfg false false false false)) (TTuple [TInt U8]) [91; 49; 44]
+  = TErr TrailingCharacters 3.
+Proof. exact (@TypedPrefix.C10_typed_trailing_witness). Qed.
+Print Assumptions C10_typed_trailing_witness.
+
